@@ -30,22 +30,52 @@ fn limits(tier: Tier) -> Limits {
 /// "unbounded growth" cases (recognisable by an absolute ResizeTo beyond the routine bound) get
 /// more room.
 fn is_big(h: &History) -> bool {
-    h.ops.iter().any(|o| match o {
-        Op::ResizeTo(t, _) => *t > 2600,
-        Op::Reserve(k) => *k > 4096,
-        Op::Append(x) | Op::Prepend(x) | Op::Insert(_, x) => x.bits.len() > 2600,
-        Op::Extend(b, _) => b.len() > 2600,
-        _ => false,
-    })
+    big_size(h) > 2600
+}
+
+/// The largest absolute size a history mentions (0 for routine, fraction-driven histories).
+fn big_size(h: &History) -> usize {
+    let mut m = match &h.init {
+        Init::WithCapacity(c) => *c,
+        Init::Built(b, _) => b.len(),
+        Init::Zeros(n) | Init::Ones(n) | Init::Repeat(_, n) => *n,
+        _ => 0,
+    };
+    if m <= 2600 {
+        m = 0;
+    }
+    for o in &h.ops {
+        let x = match o {
+            Op::ResizeTo(t, _) => *t,
+            Op::Reserve(k) if *k > 4096 => *k as usize,
+            Op::Append(x) | Op::Prepend(x) | Op::Insert(_, x) => x.bits.len(),
+            Op::Extend(b, _) => b.len(),
+            _ => 0,
+        };
+        if x > 2600 {
+            m = m.max(x);
+        }
+    }
+    m
 }
 
 fn limits_for(h: &History, long_at: usize) -> Limits {
-    let big = is_big(h) || matches!(h.init, Init::WithCapacity(c) if c > 2600);
-    if big {
-        Limits { lcap: 140_000, gmax: 400 }
+    let big = big_size(h);
+    if big > 0 {
+        Limits { lcap: 140_000.max(2 * big + 1000), gmax: 400 }
     } else {
         limits(if h.ops.len() > long_at { Tier::Thorough } else { Tier::Quick })
     }
+}
+
+/// Lengths for the long-vector histories: the 70 400-bit fixed type at its thresholds and a
+/// geometric ladder on the unbounded types (up to 2^19 bits quick / 2^21 thorough: every step
+/// of a history is followed by an observer battery).
+fn long_history_lengths(tier: Tier) -> Vec<(Tid, usize)> {
+    let mut v: Vec<(Tid, usize)> = HUGE_TYPE_LENS.iter().map(|&n| (TID_HUGE, n)).collect();
+    let top = (1usize << tier.pick(19, 21)) + (1 << 18);
+    v.extend(ladder_lengths(tier).into_iter().filter(|&(_, n)| n <= top));
+    v
 }
 
 /// Operands used inside histories: short, boundary-heavy, any type, any provenance.
@@ -108,6 +138,7 @@ fn arb_other_op(tier: Tier) -> BoxedStrategy<Op> {
         1 => any::<bool>().prop_map(Op::WriteRead),
         1 => any::<bool>().prop_map(Op::FormatParse),
         1 => Just(Op::CloneReplace),
+        2 => (any::<bool>(), arb_hist_operand()).prop_map(|(into, other)| Op::CloneFrom { into, other }),
     ]
     .boxed()
 }
@@ -151,7 +182,7 @@ fn arb_history(mode: Mode, tier: Tier) -> BoxedStrategy<History> {
         Mode::Capacity => tier.pick(14, 40),
     };
     let tid = match mode {
-        Mode::Capacity => prop_oneof![2 => (0usize..18).prop_map(|i| FIXED_TIDS[i]), 5 => Just(TID_D), 6 => Just(TID_A)].boxed(),
+        Mode::Capacity => prop_oneof![2 => (0usize..20).prop_map(|i| ROUTINE_FIXED[i]), 5 => Just(TID_D), 6 => Just(TID_A)].boxed(),
         _ => arb_tid().boxed(),
     };
     (tid, arb_init(), vec(arb_op(mode, tier), 1..maxops)).prop_map(|(ty, init, ops)| History { ty, init, ops }).boxed()
@@ -284,6 +315,8 @@ fn small_alphabet(with_cap_ops: bool) -> Vec<Op> {
         Op::Via(13),
         Op::WriteRead(true),
         Op::Recollect(Hint::Zero),
+        Op::CloneFrom { into: true, other: ones(TID_D, 200) },
+        Op::CloneFrom { into: false, other: opnd(TID_D, 70) },
     ];
     if with_cap_ops {
         v.extend([Op::Reserve(1), Op::Reserve(64), Op::Reserve(200), Op::ShrinkToFit]);
@@ -344,13 +377,35 @@ impl Property for C03 {
         arb_history(Mode::All, tier)
     }
     fn exhaustive_subspaces(&self, tier: Tier) -> Vec<String> {
-        vec![format!("all histories of length 1 and 2{} over a 44-operation alphabet (every operation family, capacity operations included) from 14 boundary start lengths {{0,1,7,8,9,15,16,17,63,64,65,127,128,129}} on {}", if tier == Tier::Thorough { " and 3" } else { "" }, if tier == Tier::Thorough { "Bvf<u8,2>, Bvf<u8,17>, Bvf<u64,2>, Bvf<u128,2>, Bvd, Bv" } else { "Bvf<u8,2>, Bvf<u64,2>, Bvf<u8,17>, Bvd, Bv" })]
+        vec![format!("all histories of length 1 and 2{} over a 46-operation alphabet (every operation family, capacity operations included) from 14 boundary start lengths {{0,1,7,8,9,15,16,17,63,64,65,127,128,129}} on {}", if tier == Tier::Thorough { " and 3" } else { "" }, if tier == Tier::Thorough { "Bvf<u8,2>, Bvf<u8,17>, Bvf<u64,2>, Bvf<u128,2>, Bvd, Bv" } else { "Bvf<u8,2>, Bvf<u64,2>, Bvf<u8,17>, Bvd, Bv" })]
     }
     fn enumerate(&self, tier: Tier, sh: &mut Shard, f: &mut dyn FnMut(History) -> bool) {
         if tier == Tier::Thorough {
             enumerate_short_histories(sh, f, &[1, 4, 10, 13, TID_D, TID_A], true, true);
         } else {
             enumerate_short_histories(sh, f, &[1, 10, 4, TID_D, TID_A], true, false);
+        }
+        // long vectors (the 70 400-bit fixed type at its thresholds, a geometric ladder of lengths
+        // on Bvd/Bv): one operation of every family per history, observer battery after each
+        for (j, (ty, n)) in long_history_lengths(tier).into_iter().enumerate() {
+            if !sh.mine() {
+                continue;
+            }
+            let other = if j % 2 == 0 { TID_D } else { TID_A };
+            let a = dense_value(n);
+            let provs = [Prov::Canon, Prov::Spare(200), Prov::ReadSurplus(j % 2 == 0), Prov::ShrunkFrom(140_000)];
+            let families: Vec<Vec<Op>> = vec![
+                vec![Op::ShiftRel { left: true, f: 3000, ty: NatTy::U64, form: ShForm::AssignVal }, Op::Bin { op: BinOp::Or, form: Form::AssignRef, rhs: Rhs::V(Operand::canon(other, Bits::ones(n + 1))) }, Op::ShiftRel { left: false, f: 40000, ty: NatTy::Usize, form: ShForm::RefVal }, Op::Grow(65535, false)],
+                vec![Op::Rot { left: true, k: 5000 }, Op::Not(j % 2 == 0), Op::Rot { left: false, k: 33000 }, Op::Bin { op: BinOp::Add, form: Form::RefRef, rhs: Rhs::V(Operand::canon(other, dense_value(n / 2 + 9))) }, Op::ShiftIn { left: true, bit: true }],
+                vec![Op::WriteRead(j % 2 == 0), Op::CloneFrom { into: true, other: Operand::canon(ty, Bits::ones(n + 300)) }, Op::Push(true), Op::FormatParse(true), Op::SplitOffKeepLow(30001)],
+                vec![Op::CopyRange(100, 65000), Op::Via(other), Op::Bin { op: BinOp::Xor, form: Form::OwnRef, rhs: Rhs::V(Operand::canon(ty, Bits::ones(n))) }, Op::CloneFrom { into: false, other: Operand::canon(ty, dense_value(n / 3 + 1)) }, Op::Recollect(Hint::Partial), Op::SplitOffKeepHigh(20001)],
+                vec![Op::ShrinkTo(3001), Op::Grow(65535, false), Op::Bin { op: BinOp::Sub, form: Form::AssignOwn, rhs: Rhs::N(Nat::new(NatTy::U8, 1)) }, Op::SignExtend(65535), Op::Truncate(700), Op::Bin { op: BinOp::Mul, form: Form::RefRef, rhs: Rhs::V(Operand::canon(other, Bits::from_u128(0xffff_ffff_ffff_fffb, 130))) }],
+            ];
+            for (i, ops) in families.into_iter().enumerate() {
+                if !f(History { ty, init: Init::Built(a.clone(), provs[(i + j) % 4].clone()), ops }) {
+                    return;
+                }
+            }
         }
     }
     fn check(&self, h: &History, st: &mut Stats) -> CheckResult {
@@ -386,8 +441,8 @@ impl Property for C07 {
     fn exhaustive_subspaces(&self, _tier: Tier) -> Vec<String> {
         vec!["unbounded growth: Bvd and Bv grown from {0,1,64,127,128,129,200} to {4095,4096,4097,65539} bits by resize(0|1)/append/prepend/insert/extend, then push/set/pop/resize/sign_extend/truncate back down".into(), "append / prepend / insert-at-{0,mid,len} of every operand length 0..=min(room,70) of 4 operand types onto every subject length 0..=min(C,140) for all 20 subject types (single-step histories)".into()]
     }
-    fn enumerate(&self, _tier: Tier, sh: &mut Shard, f: &mut dyn FnMut(History) -> bool) {
-        for ty in 0..NT {
+    fn enumerate(&self, tier: Tier, sh: &mut Shard, f: &mut dyn FnMut(History) -> bool) {
+        for ty in ROUTINE_TIDS {
             let c = fixed_cap(ty).unwrap_or(140).min(140);
             for n in 0..=c {
                 if !sh.mine() {
@@ -428,6 +483,30 @@ impl Property for C07 {
                 }
             }
         }
+        // the same on the 70 400-bit fixed type and on a geometric ladder of lengths: one growing
+        // edit (rotating over the six kinds) from a short start, then a shrink to an unaligned
+        // length that frees most of the storage, zero-filling regrowth and a final shrink
+        for (j, (ty, n)) in long_history_lengths(tier).into_iter().enumerate() {
+            if !sh.mine() {
+                continue;
+            }
+            for start in [1usize, 129] {
+                let a = realize_val(&ValPat::Alt(true), start, 8);
+                let big = Operand::canon(if j % 2 == 0 { TID_D } else { TID_A }, realize_val(&ValPat::Runs(true, vec![200, 8, 64, 250]), n - start, 8));
+                let grow = match (j + start) % 6 {
+                    0 => Op::ResizeTo(n, true),
+                    1 => Op::Append(big.clone()),
+                    2 => Op::Extend(big.bits.clone(), Hint::Partial),
+                    3 => Op::Prepend(big.clone()),
+                    4 => Op::Insert(32768, big.clone()),
+                    _ => Op::Extend(big.bits.clone(), Hint::Exact),
+                };
+                let ops = vec![grow, Op::Push(true), Op::ShrinkTo(3001), Op::ResizeTo(n / 2 + 77, false), Op::SignExtend(60000), Op::Truncate(700), Op::ResizeTo(start, false)];
+                if !f(History { ty, init: Init::Built(a.clone(), Prov::Canon), ops }) {
+                    return;
+                }
+            }
+        }
     }
     fn check(&self, h: &History, st: &mut Stats) -> CheckResult {
         if is_big(h) {
@@ -459,7 +538,21 @@ impl Property for C18 {
     fn exhaustive_subspaces(&self, _tier: Tier) -> Vec<String> {
         vec!["with_capacity(c) for c in {4096, 4100, 2^16, 2^20, 2^23-1, 2^23, 2^23+1, 2^24, 2^26+7}; reserve(k) for 12 values of k on vectors filled to 3000/c-1/c bits of a 4096/4100/8192-bit allocation, followed by growth to len+k, a second reserve, growth, shrink_to_fit".into(), "with_capacity(c) for every c<=600, and reserve(k) for k in a 20-value lattice at every length <=300 followed by each of 6 arithmetic/logic operations with a longer operand, then shrink_to_fit, on Bvd and Bv".into()]
     }
-    fn enumerate(&self, _tier: Tier, sh: &mut Shard, f: &mut dyn FnMut(History) -> bool) {
+    fn enumerate(&self, tier: Tier, sh: &mut Shard, f: &mut dyn FnMut(History) -> bool) {
+        // long vectors: capacity management around a geometric ladder of lengths (and on the
+        // 70 400-bit fixed type, where reserve / shrink_to_fit do not exist and are skipped)
+        for (j, (ty, n)) in long_history_lengths(tier).into_iter().enumerate() {
+            if !sh.mine() {
+                continue;
+            }
+            let other = if j % 2 == 0 { TID_D } else { TID_A };
+            let ops = vec![Op::ResizeTo(n - 1, true), Op::Reserve(4096), Op::Push(false), Op::Push(true), Op::Bin { op: BinOp::Add, form: Form::AssignRef, rhs: Rhs::V(Operand::canon(other, Bits::ones(n / 2))) }, Op::ShrinkToFit, Op::ShrinkTo(3001), Op::Reserve(65535), Op::Bin { op: BinOp::Or, form: Form::RefRef, rhs: Rhs::V(Operand::canon(other, Bits::ones(7000))) }, Op::ShrinkToFit, Op::Grow(65535, false), Op::ResizeTo(n / 3 + 5, true)];
+            for init in [Init::WithCapacity(n), Init::Built(Bits::ones(70), Prov::HugeSpare(n as u32)), Init::WithCapacity(0)] {
+                if !f(History { ty, init, ops: ops.clone() }) {
+                    return;
+                }
+            }
+        }
         for ty in [TID_D, TID_A] {
             for c in 0..=600usize {
                 if !sh.mine() {
